@@ -1,9 +1,596 @@
-//! C07: not built yet.
-use crate::out::Out;
-use serde_json::Value;
+//! C07: the worklist fixpoint solver (`analysis::fixpoint::Computation`) observed through a
+//! user-supplied, logging `fixpoint::Context`.
+//!
+//! The harness generates fixpoint problems (graph, finite join-semilattice as a join table, one
+//! table-driven transfer per edge incl. blocking ones, start values, default value, priority list,
+//! step bound), runs the REAL solver and records what it does: every `update_edge` and `merge`
+//! call-back and the end state (`node_values`, `get_worklist`, `has_stabilized`).  Whether the run is
+//! a run of the chaotic-iteration machine ending in the least solution is decided by TLC
+//! (spec/trace/T_C07.tla over spec/Fixpoint.tla), never here.
+//!
+//! Wire format (all node / edge / lattice numbers 1-based, 0 = None):
+//!   reset{n, edges[[src,dst]], join[[..]], tr[[..]], start[..], default, maxsteps(-1 = compute()),
+//!         mode "new"|"prio"|"bottom_up"|"top_down", prio[..], prog[[[kind,a,b]..]..]}
+//!   edge{e, in}   merge{a, b, out}   end{vals[..], worklist[..], stabilized, panic}
+//!
+//! sub = ""   random problems (gen) ;  sub = "mc"  problems exported by the model-checking
+//! instance MC_Fixpoint (file named by $C07_CONFIGS), replayed on the real solver under every
+//! priority permutation (spec -> impl direction).
+use crate::out::{catch, Out};
+use crate::rng::Rng;
+use cwe_checker_lib::analysis::fixpoint::{Computation, Context};
+use cwe_checker_lib::analysis::forward_interprocedural_fixpoint::{create_bottom_up_worklist, create_top_down_worklist};
+use cwe_checker_lib::analysis::graph::get_program_cfg;
+use cwe_checker_lib::intermediate_representation::*;
+use petgraph::graph::{DiGraph, EdgeIndex, NodeIndex};
+use petgraph::visit::EdgeRef;
+use serde_json::{json, Value};
+use std::cell::{Cell, RefCell};
+use std::collections::{BTreeMap, BTreeSet};
+use std::panic::AssertUnwindSafe;
+use std::rc::Rc;
 
-pub fn gen(_out: &mut Out, _sub: &str) {}
+/// A solver that does not terminate is stopped by a panic of the call-back (recorded in `end.panic`).
+/// A node is re-queued only when its value grew, i.e. at most (height of the lattice) <= 3 times, so a
+/// problem with m edges needs at most 4*m update_edge and 4*m merge calls (m <= 40): the budget is far
+/// above that for every generated problem.  Only the first LOG_CAP call-backs are recorded.
+const CALL_BUDGET: u64 = 5_000;
+const LOG_CAP: usize = 1_000;
+pub const BUDGET_MSG: &str = "harness: call-back budget exceeded (the solver does not terminate)";
 
-pub fn replay(_run: &[Value], _sub: &str) -> Vec<Value> {
-    Vec::new()
+struct Ctx {
+    graph: DiGraph<(), ()>,
+    tr: Vec<Vec<u8>>,
+    join: Vec<Vec<u8>>,
+    log: Rc<RefCell<Vec<Value>>>,
+    calls: Cell<u64>,
+}
+
+impl Ctx {
+    fn record(&self, ev: Value) {
+        let mut log = self.log.borrow_mut();
+        if log.len() < LOG_CAP {
+            log.push(ev);
+        }
+    }
+    fn tick(&self) {
+        self.calls.set(self.calls.get() + 1);
+        if self.calls.get() > CALL_BUDGET {
+            panic!("{}", BUDGET_MSG);
+        }
+    }
+}
+
+impl Context for Ctx {
+    type EdgeLabel = ();
+    type NodeLabel = ();
+    type NodeValue = u8;
+
+    fn get_graph(&self) -> &DiGraph<(), ()> {
+        &self.graph
+    }
+    fn merge(&self, a: &u8, b: &u8) -> u8 {
+        self.tick();
+        let out = self.join[*a as usize - 1][*b as usize - 1];
+        self.record(json!({"ev": "merge", "a": *a, "b": *b, "out": out}));
+        out
+    }
+    fn update_edge(&self, value: &u8, edge: EdgeIndex) -> Option<u8> {
+        self.tick();
+        self.record(json!({"ev": "edge", "e": edge.index() + 1, "in": *value}));
+        match self.tr[edge.index()][*value as usize - 1] {
+            0 => None,
+            v => Some(v),
+        }
+    }
+}
+
+fn u8s(v: &Value) -> Vec<u8> {
+    v.as_array().unwrap().iter().map(|x| x.as_u64().unwrap() as u8).collect()
+}
+fn table(v: &Value) -> Vec<Vec<u8>> {
+    v.as_array().unwrap().iter().map(u8s).collect()
+}
+
+// ------------------------------------------------------------------------------------------------
+// CFG-shaped problems: a small program, its interprocedural CFG (the graph of the problem) and the
+// bottom-up / top-down worklist orders of forward_interprocedural_fixpoint.rs
+// ------------------------------------------------------------------------------------------------
+/// prog = one entry per sub = list of blocks [kind, a, b]:
+/// 0 return | 1 branch to block a | 2 cbranch to block a, else branch to block b |
+/// 3 call sub a, return to block b (b = -1: no return site) | 4 no jump at all
+fn build_program(prog: &Value) -> Term<Program> {
+    let flag = Expression::Var(Variable { name: "ZF".into(), size: ByteSize::new(1), is_temp: false });
+    let blk_tid = |s: usize, b: i64| Tid::new(format!("blk_{}_{}", s, b));
+    let sub_tid = |s: i64| Tid::new(format!("sub_{}", s));
+    let mut subs = BTreeMap::new();
+    for (s, blocks) in prog.as_array().unwrap().iter().enumerate() {
+        let mut blks = Vec::new();
+        for (b, spec) in blocks.as_array().unwrap().iter().enumerate() {
+            let k = spec[0].as_i64().unwrap();
+            let a = spec[1].as_i64().unwrap();
+            let c = spec[2].as_i64().unwrap();
+            let jt = |i: usize| Tid::new(format!("jmp_{}_{}_{}", s, b, i));
+            let jmps = match k {
+                0 => vec![Term { tid: jt(0), term: Jmp::Return(flag.clone()) }],
+                1 => vec![Term { tid: jt(0), term: Jmp::Branch(blk_tid(s, a)) }],
+                2 => vec![
+                    Term { tid: jt(0), term: Jmp::CBranch { target: blk_tid(s, a), condition: flag.clone() } },
+                    Term { tid: jt(1), term: Jmp::Branch(blk_tid(s, c)) },
+                ],
+                3 => vec![Term {
+                    tid: jt(0),
+                    term: Jmp::Call { target: sub_tid(a), return_: if c >= 0 { Some(blk_tid(s, c)) } else { None } },
+                }],
+                _ => vec![],
+            };
+            blks.push(Term { tid: blk_tid(s, b as i64), term: Blk { defs: vec![], jmps, indirect_jmp_targets: vec![] } });
+        }
+        let tid = sub_tid(s as i64);
+        subs.insert(tid.clone(), Term { tid, term: Sub { name: format!("sub_{}", s), blocks: blks, calling_convention: None } });
+    }
+    Term {
+        tid: Tid::new("prog"),
+        term: Program { subs, extern_symbols: BTreeMap::new(), entry_points: BTreeSet::new(), address_base_offset: 0 },
+    }
+}
+
+fn gen_prog(rng: &mut Rng) -> Value {
+    let nsubs = rng.range(1, 3) as usize;
+    let nblocks: Vec<usize> = (0..nsubs).map(|_| rng.range(1, if nsubs == 1 { 3 } else { 2 }) as usize).collect();
+    let mut prog = Vec::new();
+    for s in 0..nsubs {
+        let mut blocks = Vec::new();
+        for b in 0..nblocks[s] {
+            let nb = nblocks[s] as i64;
+            let spec = match rng.below(10) {
+                0..=2 => json!([0, 0, 0]),
+                3..=4 => json!([1, rng.range(0, nb - 1), 0]),
+                5 => json!([2, rng.range(0, nb - 1), rng.range(0, nb - 1)]),
+                6..=8 => {
+                    let ret = if rng.chance(1, 5) { -1 } else { rng.range(0, nb - 1) };
+                    json!([3, rng.range(0, nsubs as i64 - 1), ret])
+                }
+                _ => json!([4, 0, 0]),
+            };
+            let _ = b;
+            blocks.push(spec);
+        }
+        prog.push(Value::Array(blocks));
+    }
+    Value::Array(prog)
+}
+
+/// (n, edges 1-based) of the CFG of `prog`, in the node / edge index order of the real graph
+fn cfg_shape(prog: &Value) -> (usize, Vec<(usize, usize)>) {
+    let program = build_program(prog);
+    let g = get_program_cfg(&program);
+    let edges = g.edge_references().map(|e| (e.source().index() + 1, e.target().index() + 1)).collect();
+    (g.node_count(), edges)
+}
+
+// ------------------------------------------------------------------------------------------------
+// one run of the real solver
+// ------------------------------------------------------------------------------------------------
+/// Execute the run described by a reset event on the real solver; returns the events of the case
+/// (the reset event with the priority list filled in, the call-backs, the end event).
+pub fn exec(reset: &Value) -> Vec<Value> {
+    let n = reset["n"].as_u64().unwrap() as usize;
+    let edges: Vec<(usize, usize)> = reset["edges"]
+        .as_array()
+        .unwrap()
+        .iter()
+        .map(|e| (e[0].as_u64().unwrap() as usize, e[1].as_u64().unwrap() as usize))
+        .collect();
+    let start = u8s(&reset["start"]);
+    let default = reset["default"].as_u64().unwrap() as u8;
+    let maxsteps = reset["maxsteps"].as_i64().unwrap();
+    let mode = reset["mode"].as_str().unwrap().to_string();
+    let mut graph: DiGraph<(), ()> = DiGraph::new();
+    for _ in 0..n {
+        graph.add_node(());
+    }
+    for (s, d) in &edges {
+        graph.add_edge(NodeIndex::new(s - 1), NodeIndex::new(d - 1), ());
+    }
+    let log = Rc::new(RefCell::new(Vec::new()));
+    let ctx = Ctx { graph, tr: table(&reset["tr"]), join: table(&reset["join"]), log: log.clone(), calls: Cell::new(0) };
+    let default_value = if default == 0 { None } else { Some(default) };
+    let mut panic_msg = String::new();
+    let mut reset_out = reset.clone();
+
+    // construction: Computation::new (SCC order) or from_node_priority_list
+    let built = catch(AssertUnwindSafe(|| match mode.as_str() {
+        "new" => (Computation::new(ctx, default_value), Vec::new()),
+        "prio" => {
+            let prio: Vec<NodeIndex> = u8s(&reset["prio"]).iter().map(|v| NodeIndex::new(*v as usize - 1)).collect();
+            (Computation::from_node_priority_list(ctx, default_value, prio.clone()), prio)
+        }
+        _ => {
+            // the order is computed by the real code from the real CFG of the recorded program
+            let program = build_program(&reset["prog"]);
+            let cfg = get_program_cfg(&program);
+            let prio = if mode == "bottom_up" { create_bottom_up_worklist(&cfg) } else { create_top_down_worklist(&cfg) };
+            (Computation::from_node_priority_list(ctx, default_value, prio.clone()), prio)
+        }
+    }));
+    let mut end = json!({"ev": "end", "vals": [], "worklist": [], "stabilized": false, "panic": ""});
+    match built {
+        Err(p) => panic_msg = format!("construction: {}", p),
+        Ok((mut comp, prio)) => {
+            if mode != "new" {
+                reset_out["prio"] = json!(prio.iter().map(|v| v.index() + 1).collect::<Vec<_>>());
+            }
+            let r = catch(AssertUnwindSafe(|| {
+                for (i, v) in start.iter().enumerate() {
+                    if *v != 0 {
+                        comp.set_node_value(NodeIndex::new(i), *v);
+                    }
+                }
+                if maxsteps < 0 {
+                    comp.compute();
+                } else {
+                    comp.compute_with_max_steps(maxsteps as u64);
+                }
+                let vals: Vec<u8> = (0..n).map(|i| comp.get_node_value(NodeIndex::new(i)).copied().unwrap_or(0)).collect();
+                // node_values() must agree with get_node_value(); extra keys would be values of non-existing nodes
+                let extra = comp.node_values().keys().filter(|k| k.index() >= n).count();
+                let wl: Vec<usize> = comp.get_worklist().iter().map(|v| v.index() + 1).collect();
+                (vals, wl, comp.has_stabilized(), extra)
+            }));
+            match r {
+                Ok((vals, wl, stab, extra)) => {
+                    end["vals"] = json!(vals);
+                    end["worklist"] = json!(wl);
+                    end["stabilized"] = json!(stab);
+                    if extra > 0 {
+                        panic_msg = format!("node_values() contains {} entries for non-existing nodes", extra);
+                    }
+                }
+                Err(p) => panic_msg = p,
+            }
+        }
+    }
+    end["panic"] = json!(panic_msg);
+    let mut evs = vec![reset_out];
+    evs.extend(log.borrow().iter().cloned());
+    evs.push(end);
+    evs
+}
+
+// ------------------------------------------------------------------------------------------------
+// generators
+// ------------------------------------------------------------------------------------------------
+/// The lattices: join tables over elements 1..K.
+fn lattices() -> Vec<(&'static str, Vec<Vec<u8>>)> {
+    // from an order given as "upper bounds" relation: leq[a][b]
+    fn from_leq(k: usize, leq: &dyn Fn(usize, usize) -> bool) -> Vec<Vec<u8>> {
+        let mut t = vec![vec![0u8; k]; k];
+        for a in 0..k {
+            for b in 0..k {
+                // least upper bound: the upper bound that is below all upper bounds
+                let ubs: Vec<usize> = (0..k).filter(|u| leq(a, *u) && leq(b, *u)).collect();
+                let lub = ubs.iter().find(|u| ubs.iter().all(|w| leq(**u, *w))).expect("not a join-semilattice");
+                t[a][b] = *lub as u8 + 1;
+            }
+        }
+        t
+    }
+    let m3 = |a: usize, b: usize| a == b || a == 0 || b == 4;
+    // pentagon N5: 0 < 1 < 2 < 4, 0 < 3 < 4
+    let n5 = |a: usize, b: usize| a == b || a == 0 || b == 4 || (a == 1 && b == 2);
+    // join-semilattice without bottom: two incomparable elements below a top
+    let vee = |a: usize, b: usize| a == b || b == 2;
+    vec![
+        ("pow2", from_leq(4, &|a, b| a & b == a)),
+        ("pow3", from_leq(8, &|a, b| a & b == a)),
+        ("chain4", from_leq(4, &|a, b| a <= b)),
+        ("m3", from_leq(5, &m3)),
+        ("n5", from_leq(5, &n5)),
+        ("vee", from_leq(3, &vee)),
+    ]
+}
+
+fn leq(join: &[Vec<u8>], a: u8, b: u8) -> bool {
+    join[a as usize - 1][b as usize - 1] == b
+}
+
+/// A random transfer table that is monotone in the extended order (None below everything):
+/// enabled on an up-closed set U (everything / nothing / the elements above one or two generators),
+/// and on U the join of a random map over the enabled elements below the argument.
+/// (Whether the result really is monotone is checked by TLC: Fixpoint!InClass.)
+fn gen_transfer(rng: &mut Rng, join: &[Vec<u8>]) -> Vec<u8> {
+    let k = join.len();
+    let elems: Vec<u8> = (1..=k as u8).collect();
+    match rng.below(12) {
+        0 => return elems.clone(),                      // identity
+        1 => return vec![0; k],                         // blocked edge
+        2 => return vec![*rng.pick(&elems); k],         // constant
+        _ => {}
+    }
+    let gens: Vec<u8> = match rng.below(10) {
+        0..=5 => vec![],                                // enabled everywhere
+        6..=8 => vec![*rng.pick(&elems)],
+        _ => vec![*rng.pick(&elems), *rng.pick(&elems)],
+    };
+    let enabled = |x: u8| gens.is_empty() || gens.iter().any(|g| leq(join, *g, x));
+    let raw: Vec<u8> = (0..k).map(|_| *rng.pick(&elems)).collect();
+    // bias towards small images so that fixpoints are not always the top element
+    let raw: Vec<u8> = if rng.chance(1, 2) {
+        let lo = *rng.pick(&elems);
+        raw.iter().map(|r| if rng.chance(1, 2) { lo } else { *r }).collect()
+    } else {
+        raw
+    };
+    elems
+        .iter()
+        .map(|x| {
+            if !enabled(*x) {
+                return 0;
+            }
+            let mut acc = 0u8;
+            for y in &elems {
+                if enabled(*y) && leq(join, *y, *x) {
+                    let r = raw[*y as usize - 1];
+                    acc = if acc == 0 { r } else { join[acc as usize - 1][r as usize - 1] };
+                }
+            }
+            acc
+        })
+        .collect()
+}
+
+fn gen_edges(rng: &mut Rng, n: usize) -> Vec<(usize, usize)> {
+    let mut edges = Vec::new();
+    let style = rng.below(4);
+    if style == 0 && n > 1 {
+        // a chain with back edges (loops)
+        for i in 1..n {
+            edges.push((i, i + 1));
+        }
+        for _ in 0..rng.range(1, 3) {
+            let a = rng.range(1, n as i64) as usize;
+            let b = rng.range(1, a as i64) as usize;
+            edges.push((a, b));
+        }
+    }
+    let m = match style {
+        0 => rng.range(0, 3),
+        1 => rng.range(0, n as i64),
+        2 => rng.range(n as i64, 2 * n as i64),
+        _ => rng.range(n as i64, (3 * n as i64).min(30)),
+    };
+    for _ in 0..m {
+        let a = rng.range(1, n as i64) as usize;
+        let b = if rng.chance(1, 8) { a } else { rng.range(1, n as i64) as usize };
+        edges.push((a, b)); // parallel edges and self-loops are allowed
+    }
+    rng.shuffle(&mut edges);
+    edges
+}
+
+struct Problem {
+    n: usize,
+    edges: Vec<(usize, usize)>,
+    join: Vec<Vec<u8>>,
+    tr: Vec<Vec<u8>>,
+    start: Vec<u8>,
+    default: u8,
+    prog: Value,
+}
+
+fn gen_problem(rng: &mut Rng, n: usize, prog: Option<Value>) -> Problem {
+    let lats = lattices();
+    let (_, join) = rng.pick(&lats).clone();
+    let k = join.len() as i64;
+    let (n, edges, prog) = match prog {
+        Some(p) => {
+            let (n, e) = cfg_shape(&p);
+            (n, e, p)
+        }
+        None => (n, gen_edges(rng, n), json!([])),
+    };
+    let tr = edges.iter().map(|_| gen_transfer(rng, &join)).collect();
+    let default = if rng.chance(1, 3) { rng.range(1, k) as u8 } else { 0 };
+    let mut start = vec![0u8; n];
+    let nstart = if default != 0 && rng.chance(1, 3) { 0 } else { rng.range(1, 1 + n as i64 / 3) };
+    for _ in 0..nstart {
+        let v = rng.below(n as u64) as usize;
+        // low elements more often, so that there is something left to compute
+        start[v] = if rng.chance(1, 2) { 1 } else { rng.range(1, k) as u8 };
+    }
+    Problem { n, edges, join, tr, start, default, prog }
+}
+
+fn reset_event(p: &Problem, mode: &str, prio: &[usize], maxsteps: i64) -> Value {
+    json!({"ev": "reset", "n": p.n, "edges": p.edges.iter().map(|(a, b)| json!([a, b])).collect::<Vec<_>>(),
+           "join": p.join, "tr": p.tr, "start": p.start, "default": p.default, "maxsteps": maxsteps,
+           "mode": mode, "prio": prio, "prog": p.prog})
+}
+
+/// harness-computed feature tag (only counted): some node was processed more than once, or the step
+/// bound left nodes unstabilised
+fn nontrivial(evs: &[Value]) -> bool {
+    let m = evs[0]["edges"].as_array().unwrap().len();
+    let calls = evs.iter().filter(|e| e["ev"] == "edge").count();
+    let end = evs.last().unwrap();
+    calls > m || !end["worklist"].as_array().unwrap().is_empty()
+}
+
+fn permutations(n: usize) -> Vec<Vec<usize>> {
+    fn go(cur: &mut Vec<usize>, used: &mut Vec<bool>, n: usize, out: &mut Vec<Vec<usize>>) {
+        if cur.len() == n {
+            out.push(cur.clone());
+            return;
+        }
+        for i in 0..n {
+            if !used[i] {
+                used[i] = true;
+                cur.push(i + 1);
+                go(cur, used, n, out);
+                cur.pop();
+                used[i] = false;
+            }
+        }
+    }
+    let mut out = Vec::new();
+    go(&mut Vec::new(), &mut vec![false; n], n, &mut out);
+    out
+}
+
+fn run(out: &mut Out, p: &Problem, mode: &str, prio: &[usize], maxsteps: i64, stats: &mut Stats) {
+    let evs = exec(&reset_event(p, mode, prio, maxsteps));
+    let nt = nontrivial(&evs);
+    stats.runs += 1;
+    stats.max_events = stats.max_events.max(evs.len() as u64);
+    if !evs.last().unwrap()["worklist"].as_array().unwrap().is_empty() {
+        stats.unstabilized += 1;
+    }
+    out.emit(evs, nt);
+}
+
+#[derive(Default)]
+struct Stats {
+    runs: u64,
+    unstabilized: u64,
+    max_events: u64,
+    problems: u64,
+    exhaustive_perm_problems: u64,
+    cfg_problems: u64,
+}
+
+/// All runs of one problem under one construction: compute() and compute_with_max_steps(k)
+fn bounds_for(rng: &mut Rng, all: bool) -> Vec<i64> {
+    if all {
+        vec![-1, 1, 2, 3, 100]
+    } else {
+        vec![-1, *rng.pick(&[1i64, 1, 2, 2, 3, 100])]
+    }
+}
+
+fn gen_random(out: &mut Out) {
+    let mut rng = Rng::new(out.seed ^ 0xC07);
+    let mut st = Stats::default();
+    // (node count, number of problems, all permutations?)  -- quick / thorough
+    let plan: Vec<(usize, u64, bool)> = if out.quick() {
+        vec![(1, 2, true), (2, 8, true), (3, 12, true), (4, 8, true), (5, 2, true), (6, 1, true),
+             (7, 8, false), (8, 8, false), (9, 8, false), (10, 8, false), (11, 8, false), (12, 10, false)]
+    } else {
+        vec![(1, 2, true), (2, 30, true), (3, 60, true), (4, 40, true), (5, 10, true), (6, 3, true),
+             (7, 30, false), (8, 30, false), (9, 30, false), (10, 30, false), (11, 30, false), (12, 40, false)]
+    };
+    for (n, count, all_perms) in plan {
+        for _ in 0..count {
+            let p = gen_problem(&mut rng, n, None);
+            st.problems += 1;
+            // Computation::new (SCC order), every bound
+            for b in bounds_for(&mut rng, true) {
+                run(out, &p, "new", &[], b, &mut st);
+            }
+            if all_perms {
+                st.exhaustive_perm_problems += 1;
+                // every bound for every permutation where that is cheap, else compute() + one bound
+                let all_bounds = n <= 3 || (!out.quick() && n <= 4);
+                for (pi, perm) in permutations(n).iter().enumerate() {
+                    if out.quick() && n >= 5 {
+                        // 120 / 720 permutations: alternate compute() and one bound
+                        let b = if pi % 2 == 0 { -1 } else { *rng.pick(&[1i64, 2, 3]) };
+                        run(out, &p, "prio", perm, b, &mut st);
+                        continue;
+                    }
+                    for b in bounds_for(&mut rng, all_bounds) {
+                        run(out, &p, "prio", perm, b, &mut st);
+                    }
+                }
+            } else {
+                let nperm = if out.quick() { 8 } else { 40 };
+                for _ in 0..nperm {
+                    let mut perm: Vec<usize> = (1..=n).collect();
+                    rng.shuffle(&mut perm);
+                    for b in bounds_for(&mut rng, false) {
+                        run(out, &p, "prio", &perm, b, &mut st);
+                    }
+                }
+            }
+        }
+    }
+    // CFG-shaped graphs with the bottom-up / top-down orders of forward_interprocedural_fixpoint.rs
+    let ncfg = out.size(25, 200);
+    let mut made = 0;
+    while made < ncfg {
+        let prog = gen_prog(&mut rng);
+        let (n, _) = cfg_shape(&prog);
+        if n > 14 {
+            continue;
+        }
+        made += 1;
+        let p = gen_problem(&mut rng, n, Some(prog));
+        st.problems += 1;
+        st.cfg_problems += 1;
+        for mode in ["bottom_up", "top_down", "new"] {
+            for b in bounds_for(&mut rng, true) {
+                run(out, &p, mode, &[], b, &mut st);
+            }
+        }
+    }
+    out.extra.insert("problems".into(), json!(st.problems));
+    out.extra.insert("problems_with_all_permutations".into(), json!(st.exhaustive_perm_problems));
+    out.extra.insert("cfg_shaped_problems".into(), json!(st.cfg_problems));
+    out.extra.insert("runs_with_nonempty_final_worklist".into(), json!(st.unstabilized));
+    out.extra.insert("max_events_per_run".into(), json!(st.max_events));
+}
+
+/// spec -> impl: problems exported by TLC from the model-checking instance (one JSON object per
+/// line: n, edges, join, tr, start, default, maxsteps), run under Computation::new and every
+/// priority permutation.
+fn gen_mc(out: &mut Out) {
+    let path = std::env::var("C07_CONFIGS").expect("C07_CONFIGS");
+    let text = std::fs::read_to_string(&path).expect("config dump");
+    let lines: Vec<&str> = text.lines().filter(|l| !l.trim().is_empty()).collect();
+    let limit: usize = std::env::var("C07_MC_SAMPLE").ok().and_then(|s| s.parse().ok()).unwrap_or(usize::MAX);
+    let mut idx: Vec<usize> = (0..lines.len()).collect();
+    let mut rng = Rng::new(out.seed ^ 0xC07C);
+    if limit < lines.len() {
+        rng.shuffle(&mut idx);
+        idx.truncate(limit);
+        idx.sort();
+    }
+    let mut problems = 0u64;
+    for i in &idx {
+        let c: Value = serde_json::from_str(lines[*i]).expect("config json");
+        let n = c["n"].as_u64().unwrap() as usize;
+        let mut base = c.clone();
+        base["ev"] = json!("reset");
+        base["prog"] = json!([]);
+        problems += 1;
+        let mut variants: Vec<(String, Vec<usize>)> = vec![("new".into(), vec![])];
+        for perm in permutations(n) {
+            variants.push(("prio".into(), perm));
+        }
+        for (mode, prio) in variants {
+            let mut r = base.clone();
+            r["mode"] = json!(mode);
+            r["prio"] = json!(prio);
+            let evs = exec(&r);
+            let nt = nontrivial(&evs);
+            out.emit(evs, nt);
+        }
+    }
+    out.extra.insert("mc_configs_total".into(), json!(lines.len()));
+    out.extra.insert("mc_configs_replayed".into(), json!(problems));
+}
+
+pub fn gen(out: &mut Out, sub: &str) {
+    match sub {
+        "mc" => gen_mc(out),
+        _ => gen_random(out),
+    }
+}
+
+/// Re-execute the recorded run: everything needed is in its reset event.
+pub fn replay(run: &[Value], _sub: &str) -> Vec<Value> {
+    match run.iter().find(|e| e["ev"] == "reset") {
+        Some(r) => exec(r),
+        None => Vec::new(),
+    }
 }
